@@ -52,6 +52,18 @@ def main(prop, tier, replay=None):
                 steps = 30 if quick else 60
             specs = CW.world_specs(rng, ngen)
             CW.run_walks(drv, rng, S, on_fail, specs, walks, steps, reachable_only=(prop in ("C11", "C12")))
+            if prop == "C08" and info.get("tables"):
+                # coordinator level: whatever completes a reset (the last request, a departure), the world is restored
+                from . import check_coord as CC
+
+                def cfail8(tags, sig, desc, rep):
+                    if "C08" in tags:
+                        V.fail("coord:" + sig, desc, rep)
+                    else:
+                        for t in tags:
+                            fails_other[t] = fails_other.get(t, 0) + 1
+                CC.run_sessions(drv, rng, info["tables"]["defender"], cfail8, coord_stats, 60 if quick else 600, 45,
+                                {"burst": 0.15, "leave": 0.10, "bad": 0.02, "early_reset": 0.08})
             if prop == "C12" and info.get("tables"):
                 # coordinator level: nothing an agent holds (view, counters, status, reward beyond the documented
                 # barrier outcome) may change because ANOTHER connection sent something
